@@ -9,7 +9,7 @@ from vf import evidence  # noqa: E402
 PLAN = {
     "C01": ["serverconn", "router", "tlspump"],
     "C04": ["serverconn", "chain"],
-    "C05": ["c05", "chain"],
+    "C05": ["c05", "chain", "assembly"],
     "C06": ["tlspump", "live"],
     "C07": ["serverconn", "tlspump"],
     "C15": ["serverconn", "tlspump", "live"],
